@@ -361,8 +361,8 @@ pub mod tokio_shim {
         F::Output: Send + 'static,
     {
         match backend() {
-            Some(b) => task::JoinHandle(task::Inner::Virtual(spawn_on(&b, future).1)),
-            None => task::JoinHandle(task::Inner::Real(::tokio::spawn(future))),
+            Some(b) => task::JoinHandle(task::Inner::Virtual(spawn_on(&b, future).1), false),
+            None => task::JoinHandle(task::Inner::Real(::tokio::spawn(future)), false),
         }
     }
 
@@ -375,8 +375,8 @@ pub mod tokio_shim {
         }
 
         /// Dropping it detaches the task; awaiting yields `Err` if the task panicked or was
-        /// cancelled.
-        pub struct JoinHandle<T>(pub(super) Inner<T>);
+        /// cancelled. Like tokio's, it panics when it is polled again after it has completed.
+        pub struct JoinHandle<T>(pub(super) Inner<T>, pub(super) bool);
 
         #[derive(Debug)]
         pub enum JoinError {
@@ -388,13 +388,19 @@ pub mod tokio_shim {
         impl<T> Future for JoinHandle<T> {
             type Output = Result<T, JoinError>;
             fn poll(self: Pin<&mut Self>, cx: &mut Context<'_>) -> Poll<Self::Output> {
-                match &mut self.get_mut().0 {
+                let this = self.get_mut();
+                match &mut this.0 {
                     Inner::Real(h) => Pin::new(h).poll(cx).map_err(JoinError::Real),
-                    Inner::Virtual(rx) => Pin::new(rx).poll(cx).map(|r| match r {
-                        Ok(Ok(t)) => Ok(t),
-                        Ok(Err(())) => Err(JoinError::Panicked),
-                        Err(_) => Err(JoinError::Cancelled),
-                    }),
+                    Inner::Virtual(rx) => {
+                        assert!(!this.1, "JoinHandle polled after completion");
+                        let r = Pin::new(rx).poll(cx).map(|r| match r {
+                            Ok(Ok(t)) => Ok(t),
+                            Ok(Err(())) => Err(JoinError::Panicked),
+                            Err(_) => Err(JoinError::Cancelled),
+                        });
+                        this.1 = r.is_ready();
+                        r
+                    }
                 }
             }
         }
